@@ -16,9 +16,9 @@ PROP = "C18"
 
 
 def plan(tier, seed):
-    k = 16 if tier == "quick" else 600
+    k = 40 if tier == "quick" else 800
     shards = [{"kind": "lib", "seed": seed, "shard": i, "n": 150} for i in range(k)]
-    shards += [{"kind": "cli", "seed": seed, "shard": i, "n": 10} for i in range(4 if tier == "quick" else 100)]
+    shards += [{"kind": "cli", "seed": seed, "shard": i, "n": 10} for i in range(8 if tier == "quick" else 120)]
     return shards
 
 
